@@ -238,6 +238,10 @@ impl Check for C09 {
                 // dash stay two capped pieces (only Close joins them)
                 paths.push(PathSpec::new(vec![POp::M(a.0, a.1), POp::L(b.0, b.1), POp::L(c.0, c.1), POp::L(a.0, a.1)]));
                 paths.push(PathSpec::new(vec![POp::M(a.0, a.1), POp::L(b.0, b.1), POp::L(c.0, c.1), POp::L(a.0, a.1), POp::M(c.0, c.1), POp::L(b.0, b.1)]));
+                // a polygon that returns to its first point before Close: the closing segment is empty,
+                // Close still joins the last dash to the first and restarts the pattern
+                paths.push(PathSpec::new(vec![POp::M(a.0, a.1), POp::L(b.0, b.1), POp::L(c.0, c.1), POp::L(a.0, a.1), POp::Z]));
+                paths.push(PathSpec::new(vec![POp::M(a.0, a.1), POp::L(b.0, b.1), POp::L(c.0, c.1), POp::L(a.0, a.1), POp::Z, POp::L(20.1, 21.3)]));
                 {
                     let d = g[(s + 4) % g.len()];
                     if d != a && d != b && d != *c {
@@ -264,6 +268,17 @@ impl Check for C09 {
                     if arr.len() >= 2 {
                         offs_a.push(arr[0] + arr[1]);
                         offs_a.push(-arr[arr.len() - 1]);
+                    }
+                    // minus a whole number of periods (the reduced offset is -0.0), and the floats next
+                    // to minus one period (the period as the f32 sum the library forms)
+                    {
+                        let mut total: f32 = arr.iter().sum();
+                        if arr.len() % 2 == 1 {
+                            total *= 2.0;
+                        }
+                        if total > 0.0 && total.is_finite() {
+                            offs_a.extend([-total, -2.0 * total, -0.0, -f32::from_bits(total.to_bits() - 1), -f32::from_bits(total.to_bits() + 1), total]);
+                        }
                     }
                     let nfixed = offs.len();
                     for (oi, &off) in offs_a.iter().enumerate() {
